@@ -25,6 +25,18 @@ def _include(ctx, sub, from_rule, to_rule):
     ctx.notes.extend(sub.notes)
 
 
+def _only_when_none(test, label, var):
+    """the branch `label` of `test` is taken only when `var` is None (however the test is spelled)"""
+    from ..util import mk_atoms
+    from ..cfg import eval3, UNK
+    if label not in ('true', 'false'):
+        return False
+    v_none = eval3(test, {}, mk_atoms({f'{var} is None': True}))
+    v_some = eval3(test, {}, mk_atoms({f'{var} is None': False}))
+    want = label == 'true'
+    return v_none is not UNK and v_some is not UNK and bool(v_none) == want and bool(v_some) != want
+
+
 @rule('C06', 'C06-R1', 'the duplicate bit written to the output is a total function of the fragment rank: every read of every fragment '
                        'is assigned `rank > 0` on every path (so flags carried by the input cannot survive)')
 def r1(ctx):
@@ -46,7 +58,7 @@ def r1(ctx):
             cfg = CFG(lp.body, exceptions=False)
             ok = True
             for pth, _ in cfg.paths():
-                none_branch = any(cfg.nodes[n].kind == 'test' and src(cfg.nodes[n].ast.test) == f'{rv} is not None' and lab == 'false' for n, lab in pth)
+                none_branch = any(cfg.nodes[n].kind == 'test' and _only_when_none(cfg.nodes[n].ast.test, lab, rv) for n, lab in pth)
                 asg = any(cfg.nodes[n].kind == 'stmt' and isinstance(cfg.nodes[n].ast, ast.Assign) and src(cfg.nodes[n].ast) == f'{rv}.is_duplicate = {p}' for n, lab in pth)
                 if not asg and not none_branch:
                     ok = False
@@ -70,7 +82,7 @@ def r1(ctx):
                 tot = True
                 v = None
                 for ip, _ in icfg.paths():
-                    none_branch = any(icfg.nodes[k].kind == 'test' and src(icfg.nodes[k].ast.test) == f'{rv} is not None' and lb == 'false' for k, lb in ip)
+                    none_branch = any(icfg.nodes[k].kind == 'test' and _only_when_none(icfg.nodes[k].ast.test, lb, rv) for k, lb in ip)
                     a = [icfg.nodes[k].ast for k, lb in ip if icfg.nodes[k].kind == 'stmt' and isinstance(icfg.nodes[k].ast, ast.Assign)
                          and src(icfg.nodes[k].ast.targets[0]) == f'{rv}.is_duplicate']
                     if a:
@@ -228,13 +240,23 @@ def r3(ctx):
         ok = 'self.match_hash != other.match_hash' in eqsrc and 'self.umi_eq(other)' in eqsrc
         ctx.emit('C06-R3', ok, relpath, eqf, f'{cls}.__eq__ compares the match hash and the UMIs', key=f'{cls}:eq', nontrivial=False)
     ch = ctx.fn(FRAG_CHIC, 'CHICFragment.__eq__')
-    rad = [s for s in ch.body if isinstance(s, ast.If) and 'assignment_radius' in src(s.test)]
-    if rad:
-        t = rad[0].test
-        ren = {'self.site_location[1]': 'p1', 'other.site_location[1]': 'p2', 'self.assignment_radius': 'r'}
-        ncase, bad = check_pred(t, lambda e: e['r'] > 0 and abs(e['p1'] - e['p2']) > e['r'], symbols=['p1', 'p2', 'r'], constraint=lambda e: e['r'] >= 0, atom_name=lambda x: ren.get(src(x)), extra_consts=(0,))
-        ctx.counters['abstract_cases'] += ncase
-        ctx.emit('C06-R3', not bad, FRAG_CHIC, rad[0], f'CHIC radius test over {ncase} cases == radius > 0 and |site diff| > radius' if not bad else f'CHIC radius test differs: {bad[0]}', key='CHIC:radius-predicate')
+    # decision procedure of CHICFragment.__eq__ for equal match hashes and known sites, over all (site, site, radius >= 0): not equal iff
+    # radius > 0 and |site difference| > radius, otherwise the UMI comparison decides - however the radius test is nested or merged
+    from ..domains import assignments
+    from ..util import outcomes_by_case
+    ren = {'self.site_location[1]': 'p1', 'other.site_location[1]': 'p2', 'self.assignment_radius': 'r'}
+    facts = {'self.match_hash != other.match_hash': False, 'self.match_hash == other.match_hash': True, 'self.site_location is None': False, 'other.site_location is None': False}
+    cases = list(assignments(['p1', 'p2', 'r'], (0, 1, 2), (), lambda e: e['r'] >= 0))
+    bad = []
+    for case, outs in outcomes_by_case(ch.body, cases, lambda x: None if isinstance(x, ast.Compare) else ren.get(src(x)), facts=facts):
+        far = case['r'] > 0 and abs(case['p1'] - case['p2']) > case['r']
+        want = {('return', False)} if far else {('return', 'self.umi_eq(other)')}
+        if outs != want and len(bad) < 3:
+            bad.append({'case': case, 'outcomes': sorted(outs, key=str), 'expected': sorted(want, key=str)})
+    ncase = len(cases)
+    ctx.counters['abstract_cases'] += ncase
+    if True:
+        ctx.emit('C06-R3', not bad, FRAG_CHIC, ch, f'CHIC radius test over {ncase} cases == radius > 0 and |site diff| > radius' if not bad else f'CHIC radius test differs: {bad[0]}', key='CHIC:radius-predicate')
 
 
 @rule('C06', 'C06-R4', 'a molecule is not ejected while a later fragment could still join it: ejection predicate and span maintenance (shared with C07-R4/R5)')
